@@ -41,3 +41,44 @@ pub fn scalar_err(e: &jomini::ScalarError) -> String {
         PrecisionLoss(_) => "ERR:4".into(),
     }
 }
+
+/// A `Read` that follows a schedule: event i is `Some(n)` (deliver min(max(n,1), buf.len(),
+/// remaining) bytes) or `None` (fail).  When the schedule runs out every call fills the buffer.
+pub struct SchedRead {
+    pub data: Vec<u8>,
+    pub pos: usize,
+    pub sched: Vec<Option<usize>>,
+    pub idx: usize,
+    pub delivered: usize,
+}
+
+impl SchedRead {
+    pub fn new(data: Vec<u8>, sched: Vec<Option<usize>>) -> Self {
+        SchedRead { data, pos: 0, sched, idx: 0, delivered: 0 }
+    }
+}
+
+impl std::io::Read for SchedRead {
+    fn read(&mut self, buf: &mut [u8]) -> std::io::Result<usize> {
+        let ev = if self.idx < self.sched.len() { self.sched[self.idx] } else { Some(1_000_000_000) };
+        self.idx += 1;
+        match ev {
+            None => Err(std::io::Error::new(std::io::ErrorKind::Other, "injected fault")),
+            Some(n) => {
+                let k = n.max(1).min(buf.len()).min(self.data.len() - self.pos);
+                buf[..k].copy_from_slice(&self.data[self.pos..self.pos + k]);
+                self.pos += k;
+                self.delivered += k;
+                Ok(k)
+            }
+        }
+    }
+}
+
+/// "-" = empty schedule; otherwise comma separated counts, `F` = fault
+pub fn parse_sched(s: &str) -> Vec<Option<usize>> {
+    if s == "-" || s.is_empty() {
+        return Vec::new();
+    }
+    s.split(',').map(|x| if x == "F" { None } else { Some(x.parse::<usize>().unwrap()) }).collect()
+}
